@@ -173,6 +173,23 @@ theorem c09_gen_growth (cs nec : Nat) (l : AL) (index : Nat) :
         else .ok l :=
   ⟨(gen_growth cs nec).1, (gen_growth cs nec).2.1, (gen_growth cs nec).2.2, ensureCapacity_gen l index⟩
 
+/-- **c09_gen_pop_front_n.**  `aws_array_list_pop_front_n` decides "pop everything" by `n ≥ length` on the
+*counts* (as the model does — a comparison of byte products would wrap for `n > SIZE_MAX / item_size`), the
+second guard is `n > 0`, and the byte counts `popping_bytes`, `remaining_items`, `remaining_bytes` are the
+model's `n * item_size`, `length - n`, `(length - n) * item_size`; likewise the index guards of `get_at`,
+`get_at_ptr` and `erase` are `length > index` / `index ≥ length`.  All regenerated from array_list.inl. -/
+theorem c09_gen_pop_front_n (isz len n i : Nat) :
+    Gen.ArrayListFns.pop_front_n_all isz len n = decide (n ≥ len) ∧
+    Gen.ArrayListFns.pop_front_n_some isz len n = decide (n > 0) ∧
+    (n < len → 0 < isz → len * isz ≤ SIZE_MAX →
+      Gen.ArrayListFns.pop_front_n_popping isz len n = n * isz ∧
+      Gen.ArrayListFns.pop_front_n_length isz len n = len - n ∧
+      Gen.ArrayListFns.pop_front_n_remaining isz len n = (len - n) * isz) ∧
+    Gen.ArrayListFns.get_at_ok len i = decide (len > i) ∧ Gen.ArrayListFns.get_at_ptr_ok len i = decide (len > i) ∧
+    Gen.ArrayListFns.erase_bad_index len i = decide (i ≥ len) :=
+  ⟨(gen_popFrontN isz len n).1, (gen_popFrontN isz len n).2.1, (gen_popFrontN isz len n).2.2,
+   (gen_index_guards len i).1, (gen_index_guards len i).2.1, (gen_index_guards len i).2.2⟩
+
 /-- **c09_gen_swap_slices.**  `SLICE`, the slice count and the remainder used by the model's `memSwap`
 are the generated translations of the expressions in `aws_array_list_mem_swap`. -/
 theorem c09_gen_swap_slices (n : Nat) :
